@@ -46,7 +46,7 @@ func init() {
 		Families: func(tier string) []Family {
 			return advFamilies(tier, advCfg{txVariants: advTxVariants, annVariants: advAnnVariants},
 				scn.Flags{Blocks: true, Time: true, Restart: true, MaxTime: 2, MaxBlocks: 3, NoCsvJump: true, NoWinJump: true},
-				mc.Bounds{MaxDepth: 9, MaxDev: 2, Budget: 100 * time.Second, CrashAfterStore: true},
+				mc.Bounds{MaxDepth: 9, MaxDev: 2, Budget: 100 * time.Second, CrashAfterStore: true, NoCrashFirst: true},
 				mc.Bounds{MaxDepth: 10, MaxDev: 3, Budget: 14 * time.Minute}, pickBackends(tier))
 		},
 		Oracles:      []scn.Oracle{oracleC01},
@@ -302,7 +302,7 @@ func init() {
 		Families: func(tier string) []Family {
 			return advFamilies(tier, advCfg{txVariants: []string{"ok"}, annVariants: []string{"ok", "inv_amount+1msat", "inv_amount-1sat"}},
 				scn.Flags{Blocks: true, Time: true, Restart: true, MaxTime: 2, MaxBlocks: 3, NoCsvJump: true, NoWinJump: true},
-				mc.Bounds{MaxDepth: 8, MaxDev: 3, Budget: 40 * time.Second, CrashAfterStore: true},
+				mc.Bounds{MaxDepth: 8, MaxDev: 3, Budget: 40 * time.Second, CrashAfterStore: true, NoCrashFirst: true},
 				mc.Bounds{MaxDepth: 10, MaxDev: 3, Budget: 6 * time.Minute}, []bool{false})
 		},
 		Oracles: []scn.Oracle{oracleC01},
